@@ -150,6 +150,8 @@ def judge(ctx, traces, label):
     lists every rejected scenario; the same pass under each known-finding relaxation classifies
     them; up to CAP remaining ones (distinct rejected events first) go through
     vlib.judge_traces in the standard mode for isolation and replay files."""
+    # short single-worker runs: the C2 compiler and 16 GC threads per JVM cost more than they give
+    os.environ['JAVA_TOOL_OPTIONS'] = (os.environ.get('JAVA_TOOL_OPTIONS', '') + ' -XX:TieredStopAtLevel=1 -XX:ParallelGCThreads=2').strip()
     hdr, scen = None, []
     for t in traces:
         h, sc = vlib.split_scenarios(t)
@@ -207,6 +209,15 @@ def run(ctx):
     else:
         cases = model_and_cases(ctx, 'OciAuthFileMC_thorough.cfg', '<=3 of 6 key forms for h1 x 9 credential kinds (undecodable auth fields included), '
                                 'h2 key on/off, 3 helper setups; helper family as in quick', 600)
+        # sensitivity control: with the two table tests in the order authfile.go had them (F13) TLC must
+        # find a visiting order that changes the answer
+        d = ctx.specdir()
+        r = vlib.run_tlc(ctx, d, 'OciAuthFileMC.tla', 'OciAuthFileMC_f13.cfg', timeout=300)
+        if 'Invariant InvDeterministic is violated' not in r['out']:
+            raise vlib.Machinery('the model no longer detects the F13 order dependence:\n' + vlib.tlc_errors(r['out']))
+        ctx.cov['model_runs'].append(dict(module='OciAuthFileMC.tla', cfg='OciAuthFileMC_f13.cfg', wall_s=round(r['wall'], 1),
+                                          what='control: ambiguity test before collision test -> Deterministic violated (expected)'))
+        ctx.log('control OciAuthFileMC_f13.cfg: Deterministic violated as expected (%.1fs)' % r['wall'])
     rnd = random.Random(ctx.seed)
     if quick:
         sens = [c for c in cases if c['sens']]
